@@ -53,12 +53,13 @@ type State struct {
 	ghost map[string]Val
 	objs  map[int]Val
 	heap  T // SHeap: byte regions
+	cheap T // SHeap: regions of cell-encoded struct slices (see cells.go); kept apart so that writing cells never touches bytes
 	nextR T // Int: next fresh region id
 	held  map[string]T
 }
 
 func (s *State) clone() *State {
-	n := &State{pc: s.pc, heap: s.heap, nextR: s.nextR,
+	n := &State{pc: s.pc, heap: s.heap, cheap: s.cheap, nextR: s.nextR,
 		vars: make(map[types.Object]Val, len(s.vars)), ghost: make(map[string]Val, len(s.ghost)),
 		objs: make(map[int]Val, len(s.objs)), held: map[string]T{}}
 	for k, v := range s.vars {
@@ -331,6 +332,9 @@ func (fc *FnCtx) merge2(a, b *State) *State {
 	}
 	if a.heap.S != b.heap.S {
 		n.heap = fc.define(ite(c, a.heap, b.heap), "H")
+	}
+	if a.cheap.S != b.cheap.S {
+		n.cheap = fc.define(ite(c, a.cheap, b.cheap), "C")
 	}
 	if a.nextR.S != b.nextR.S {
 		n.nextR = fc.define(ite(c, a.nextR, b.nextR), "nextR")
